@@ -268,3 +268,75 @@ def enum_exps(budget: int, leaves, calls=()):
 
 def nodes(e) -> int:
     return sum(1 for _ in walk(e))
+
+
+# ------------------------------------------------------------------ left-recursive templates (C03, C04)
+def lrec_grammar(rng: random.Random):
+    """Layered expression grammars with direct, aliased, mutual, optional-prefixed and named left recursion,
+    mixed with right recursion and unary prefixes. Returns (grammar, kind)."""
+    kind = rng.choice(['direct', 'direct2', 'aliased', 'mutual', 'optprefix', 'named', 'rightmix', 'unary', 'layered'])
+    num = ('pat', r'\d+')
+    ident = ('pat', r'[a-z]+')
+    atom = ('choice', [num, ident, ('seq', [('tok', '('), ('call', 'expr'), ('tok', ')')])]) if rng.random() < 0.5 else num
+    op1 = rng.choice(['+', '-'])
+    op2 = rng.choice(['*', '/'])
+    rules = []
+    if kind == 'direct':
+        rules = [('expr', [], ('choice', [('seq', [('call', 'expr'), ('tok', op1), ('call', 'term')]), ('call', 'term')])),
+                 ('term', [], atom)]
+    elif kind == 'direct2':
+        rules = [('expr', [], ('choice', [('seq', [('call', 'expr'), ('tok', op1), ('call', 'term')]),
+                                          ('seq', [('call', 'expr'), ('tok', '-' if op1 == '+' else '+'), ('call', 'term')]),
+                                          ('call', 'term')])),
+                 ('term', [], atom)]
+    elif kind == 'aliased':
+        rules = [('expr', [], ('call', 'e')),
+                 ('e', [], ('choice', [('seq', [('call', 'expr'), ('tok', op1), ('call', 'term')]), ('call', 'term')])),
+                 ('term', [], atom)]
+    elif kind == 'mutual':
+        rules = [('expr', [], ('choice', [('seq', [('call', 'sub'), ('tok', op1), ('call', 'term')]), ('call', 'term')])),
+                 ('sub', [], ('choice', [('seq', [('call', 'expr'), ('tok', op2), ('call', 'term')]), ('call', 'expr')])),
+                 ('term', [], atom)]
+    elif kind == 'optprefix':
+        rules = [('expr', [], ('choice', [('seq', [('opt', ('tok', '-')), ('call', 'expr'), ('tok', op1), ('call', 'term')]), ('call', 'term')])),
+                 ('term', [], atom)]
+    elif kind == 'named':
+        rules = [('expr', [], ('choice', [('seq', [('named', False, 'left', ('call', 'expr')), ('named', False, 'op', ('tok', op1)),
+                                                   ('named', False, 'right', ('call', 'term'))]), ('call', 'term')])),
+                 ('term', [], atom)]
+    elif kind == 'rightmix':
+        rules = [('expr', [], ('choice', [('seq', [('call', 'expr'), ('tok', op1), ('call', 'term')]), ('call', 'term')])),
+                 ('term', [], ('choice', [('seq', [('call', 'factor'), ('tok', '^'), ('call', 'term')]), ('call', 'factor')])),
+                 ('factor', [], atom)]
+    elif kind == 'unary':
+        rules = [('expr', [], ('choice', [('seq', [('call', 'expr'), ('tok', op1), ('call', 'term')]), ('call', 'term')])),
+                 ('term', [], ('choice', [('seq', [('tok', '-'), ('call', 'term')]), ('call', 'factor')])),
+                 ('factor', [], atom)]
+    else:
+        rules = [('expr', [], ('choice', [('seq', [('call', 'expr'), ('tok', op1), ('call', 'term')]), ('call', 'term')])),
+                 ('term', [], ('choice', [('seq', [('call', 'term'), ('tok', op2), ('call', 'factor')]), ('call', 'factor')])),
+                 ('factor', [], atom)]
+    start_eof = rng.random() < 0.5
+    if start_eof:
+        rules = [('start', [], ('seq', [('call', 'expr'), 'eof']))] + rules
+    return {'rules': rules, 'directives': {}, 'keywords': []}, kind
+
+
+def lrec_inputs(rng: random.Random, n: int, maxlen=7):
+    toks = ['1', '2', 'x', '+', '-', '*', '/', '^', '(', ')']
+    out = ['']
+    while len(out) < n:
+        r = rng.random()
+        k = rng.randint(1, maxlen)
+        if r < 0.7:
+            s = []
+            for i in range(k):
+                s.append(rng.choice(['1', '2', 'x', '(1)']) if i % 2 == 0 else rng.choice(['+', '-', '*', '/', '^']))
+            if rng.random() < 0.2:
+                s.insert(0, '-')
+            t = rng.choice(['', ' ']).join(s)
+        else:
+            t = ''.join(rng.choice(toks) for _ in range(k))
+        if t not in out:
+            out.append(t)
+    return out
